@@ -1,6 +1,6 @@
 /-
-  Helper lemmas for C11 (D): the invariant behind `rotation_partial`
-  (model: Comet/Conc/Rotation.lean).
+  Helper lemmas for C11 (D): the invariant behind `add_never_fails_or_lost` and
+  `rotation_partial` (model: Comet/Conc/Rotation.lean).
 -/
 import Comet.Conc.Rotation
 namespace Comet.Conc.Rot
@@ -9,14 +9,14 @@ theorem visibleDoc_iff (s : RSt) (d : Doc) : visibleDoc s d = true ↔
     d ∈ s.segments ∨ ∃ p ∈ s.contents, p.2 = d ∧ (p.1 = s.mutable ∨ p.1 ∈ s.frozenQ) := by
   simp [visibleDoc]
 
-/-- invariant behind `rotation_partial` -/
+/-- the invariant -/
 structure RGood (s : RSt) : Prop where
   pendMut : ∀ p, (p ∈ s.picked ∨ p ∈ s.checked) → p.2.1 = s.mutable
   ackVis : ∀ d ∈ s.acked, visibleDoc s d = true
-  flushedOK : ∀ m ∈ s.flushed, m ∈ s.frozenQ ∧ ∀ d, (m, d) ∈ s.contents → d ∈ s.segments
+  curOK : ∀ p ∈ s.cur, p.2 < s.mutable ∧ ∀ d, (p.2, d) ∈ s.contents → d ∈ s.segments
+  snapOld : ∀ p ∈ s.snaps, ∀ m ∈ p.2, m < s.mutable
   noFail : s.failed = []
   older : ∀ m ∈ s.frozenQ, m < s.mutable
-  nd : s.flushed.Nodup
 
 theorem rgood_rotate {s : RSt} (g : RGood s) (hp : s.picked = []) (hc : s.checked = []) :
     RGood (rotateSt s) := by
@@ -30,36 +30,69 @@ theorem rgood_rotate {s : RSt} (g : RGood s) (hp : s.picked = []) (hc : s.checke
     · exact .inl h
     · exact .inr ⟨p, hp1, hp2, .inr (by simp [rotateSt, h])⟩
     · exact .inr ⟨p, hp1, hp2, .inr (by simp [rotateSt, h])⟩
-  · intro m hm
-    have := g.flushedOK m hm
-    exact ⟨by simp [rotateSt, this.1], this.2⟩
+  · intro p hp'
+    have := g.curOK p hp'
+    exact ⟨Nat.lt_succ_of_lt this.1, this.2⟩
+  · intro p hp' m hm
+    exact Nat.lt_succ_of_lt (g.snapOld p hp' m hm)
   · exact g.noFail
   · intro m hm
     simp only [rotateSt, List.mem_append, List.mem_singleton] at hm ⊢
     rcases hm with hm | rfl
     · exact Nat.lt_succ_of_lt (g.older m hm)
     · exact Nat.lt_succ_self _
-  · exact g.nd
 
-theorem rgood_step {s : RSt} (g : RGood s) (a : RAct)
+/-- writing a document into the mutable memtable keeps the invariant -/
+theorem rgood_write_mutable {s : RSt} (g : RGood s) (d : Doc) (pk ck : List (Nat × Mt × Doc))
+    (hpk : ∀ p ∈ pk, p ∈ s.picked) (hck : ∀ p ∈ ck, p ∈ s.checked) :
+    RGood { s with picked := pk, checked := ck, contents := s.contents ++ [(s.mutable, d)],
+                   acked := d :: s.acked } := by
+  refine ⟨?_, ?_, ?_, g.snapOld, g.noFail, g.older⟩
+  · intro p hp
+    rcases hp with hp | hp
+    · exact g.pendMut p (.inl (hpk p hp))
+    · exact g.pendMut p (.inr (hck p hp))
+  · intro x hx
+    rw [visibleDoc_iff]
+    simp only [List.mem_cons] at hx
+    rcases hx with rfl | hx
+    · exact .inr ⟨(s.mutable, x), by simp, rfl, .inl rfl⟩
+    · rcases (visibleDoc_iff s x).1 (g.ackVis x hx) with h | ⟨p, hp1, hp2⟩
+      · exact .inl h
+      · exact .inr ⟨p, by simp [hp1], hp2⟩
+  · intro p hp
+    have := g.curOK p hp
+    refine ⟨this.1, ?_⟩
+    intro d' hd'
+    simp only [List.mem_append, List.mem_singleton, Prod.mk.injEq] at hd'
+    rcases hd' with hd' | ⟨h1, _⟩
+    · exact this.2 d' hd'
+    · exact absurd this.1 (h1 ▸ Nat.lt_irrefl _)
+
+theorem rgood_step (locked : Bool) {s : RSt} (g : RGood s) (a : RAct)
     (hrot : match a with
       | .rotate => s.picked = [] ∧ s.checked = []
       | .pick _ _ true => s.picked = [] ∧ s.checked = []
-      | _ => True) : RGood (rstep s a) := by
+      | _ => True) : RGood (rstep locked s a) := by
   cases a with
   | pick t d rot =>
-    have key : ∀ s1 : RSt, RGood s1 → RGood { s1 with picked := s1.picked ++ [(t, s1.mutable, d)] } := by
+    have key : ∀ s1 : RSt, RGood s1 →
+        RGood (if locked then { s1 with contents := s1.contents ++ [(s1.mutable, d)], acked := d :: s1.acked }
+               else { s1 with picked := s1.picked ++ [(t, s1.mutable, d)] }) := by
       intro s1 g1
-      refine ⟨?_, ?_, g1.flushedOK, g1.noFail, g1.older, g1.nd⟩
-      · intro p hp
-        simp only [List.mem_append, List.mem_singleton] at hp
-        rcases hp with (hp | rfl) | hp
-        · exact g1.pendMut p (.inl hp)
-        · rfl
-        · exact g1.pendMut p (.inr hp)
-      · intro x hx
-        have := (visibleDoc_iff s1 x).1 (g1.ackVis x hx)
-        exact (visibleDoc_iff _ x).2 this
+      cases locked with
+      | true => exact rgood_write_mutable g1 d s1.picked s1.checked (fun _ h => h) (fun _ h => h)
+      | false =>
+        simp only [Bool.false_eq_true, ↓reduceIte]
+        refine ⟨?_, ?_, g1.curOK, g1.snapOld, g1.noFail, g1.older⟩
+        · intro p hp
+          simp only [List.mem_append, List.mem_singleton] at hp
+          rcases hp with (hp | rfl) | hp
+          · exact g1.pendMut p (.inl hp)
+          · rfl
+          · exact g1.pendMut p (.inr hp)
+        · intro x hx
+          exact (visibleDoc_iff _ x).2 ((visibleDoc_iff s1 x).1 (g1.ackVis x hx))
     simp only [rstep]
     cases rot with
     | true => exact key _ (rgood_rotate g hrot.1 hrot.2)
@@ -73,7 +106,7 @@ theorem rgood_step {s : RSt} (g : RGood s) (a : RAct)
       have hm : m = s.mutable := g.pendMut _ (.inl hmem)
       have : (m != s.mutable) = false := by simp [hm]
       simp only [this, Bool.false_eq_true, ↓reduceIte]
-      refine ⟨?_, ?_, g.flushedOK, g.noFail, g.older, g.nd⟩
+      refine ⟨?_, ?_, g.curOK, g.snapOld, g.noFail, g.older⟩
       · intro p hp
         simp only [List.mem_append, List.mem_singleton] at hp
         rcases hp with hp | hp | rfl
@@ -89,90 +122,85 @@ theorem rgood_step {s : RSt} (g : RGood s) (a : RAct)
     · next t' m d hf =>
       have hmem : (t', m, d) ∈ s.checked := List.mem_of_find?_eq_some hf
       have hm : m = s.mutable := g.pendMut _ (.inr hmem)
-      refine ⟨?_, ?_, ?_, g.noFail, g.older, g.nd⟩
-      · intro p hp
-        rcases hp with hp | hp
-        · exact g.pendMut p (.inl hp)
-        · exact g.pendMut p (.inr (List.mem_of_mem_erase hp))
-      · intro x hx
-        rw [visibleDoc_iff]
-        simp only [List.mem_cons] at hx
-        rcases hx with rfl | hx
-        · exact .inr ⟨(m, x), by simp, rfl, .inl hm⟩
-        · rcases (visibleDoc_iff s x).1 (g.ackVis x hx) with h | ⟨p, hp1, hp2⟩
-          · exact .inl h
-          · exact .inr ⟨p, by simp [hp1], hp2⟩
-      · intro m' hm'
-        have := g.flushedOK m' hm'
-        refine ⟨this.1, ?_⟩
-        intro d' hd'
-        simp only [List.mem_append, List.mem_singleton, Prod.mk.injEq] at hd'
-        rcases hd' with hd' | ⟨rfl, _⟩
-        · exact this.2 d' hd'
-        · exact absurd (g.older _ this.1) (hm ▸ Nat.lt_irrefl _)
+      subst hm
+      exact rgood_write_mutable g d s.picked _ (fun _ h => h) (fun _ h => List.mem_of_mem_erase h)
   | rotate => exact rgood_rotate g hrot.1 hrot.2
-  | flushWrite m =>
+  | flushSnap f =>
     simp only [rstep]
     split
-    · next hc =>
-      simp only [Bool.and_eq_true, Bool.not_eq_true', List.contains_iff_mem] at hc
-      have hnf : m ∉ s.flushed := by
-        intro h
-        have : s.flushed.contains m = true := by simpa using h
-        rw [this] at hc; cases hc.2
-      refine ⟨g.pendMut, ?_, ?_, g.noFail, g.older, List.nodup_cons.2 ⟨hnf, g.nd⟩⟩
-      · intro x hx
-        rw [visibleDoc_iff]
-        rcases (visibleDoc_iff s x).1 (g.ackVis x hx) with h | h
-        · exact .inl (List.mem_append_left _ h)
-        · exact .inr h
-      · intro m' hm'
-        simp only [List.mem_cons] at hm'
-        rcases hm' with rfl | hm'
-        · refine ⟨hc.1, ?_⟩
-          intro d hd
-          apply List.mem_append_right
-          simp only [docsOf, List.mem_map, List.mem_filter]
-          exact ⟨(m', d), ⟨hd, by simp⟩, rfl⟩
-        · have := g.flushedOK m' hm'
-          exact ⟨this.1, fun d hd => List.mem_append_left _ (this.2 d hd)⟩
     · exact g
-  | flushDrop m =>
+    · refine ⟨g.pendMut, ?_, g.curOK, ?_, g.noFail, g.older⟩
+      · intro x hx
+        exact (visibleDoc_iff _ x).2 ((visibleDoc_iff s x).1 (g.ackVis x hx))
+      · intro p hp m hm
+        simp only [List.mem_cons] at hp
+        rcases hp with rfl | hp
+        · exact g.older m hm
+        · exact g.snapOld p hp m hm
+  | flushWrite f =>
     simp only [rstep]
     split
-    · next hc =>
-      have hmf : m ∈ s.flushed := by simpa using hc
-      refine ⟨g.pendMut, ?_, ?_, g.noFail, fun m' hm' => g.older m' (List.mem_of_mem_erase hm'),
-        g.nd.erase m⟩
-      · intro x hx
-        rw [visibleDoc_iff]
-        rcases (visibleDoc_iff s x).1 (g.ackVis x hx) with h | ⟨p, hp1, hp2, h | h⟩
-        · exact .inl h
-        · exact .inr ⟨p, hp1, hp2, .inl h⟩
-        · by_cases hpm : p.1 = m
-          · left
-            have := (g.flushedOK m hmf).2 x
-            apply this
-            rw [← hpm, ← hp2]
-            exact hp1
-          · exact .inr ⟨p, hp1, hp2, .inr ((List.mem_erase_of_ne hpm).2 h)⟩
-      · intro m' hm'
-        have hne : m' ≠ m := fun h => by
-          subst h
-          exact (List.Nodup.mem_erase_iff g.nd).1 hm' |>.1 rfl
-        have := g.flushedOK m' (List.mem_of_mem_erase hm')
-        exact ⟨(List.mem_erase_of_ne hne).2 this.1, this.2⟩
     · exact g
+    · split
+      · exact g
+      · next f' hf =>
+        refine ⟨g.pendMut, ?_, g.curOK, fun p hp => g.snapOld p (List.mem_of_mem_erase hp), g.noFail, g.older⟩
+        intro x hx
+        exact (visibleDoc_iff _ x).2 ((visibleDoc_iff s x).1 (g.ackVis x hx))
+      · next f' m rest hf =>
+        have hmem : (f', m :: rest) ∈ s.snaps := List.mem_of_find?_eq_some hf
+        have hold := g.snapOld _ hmem
+        refine ⟨g.pendMut, ?_, ?_, ?_, g.noFail, g.older⟩
+        · intro x hx
+          rw [visibleDoc_iff]
+          rcases (visibleDoc_iff s x).1 (g.ackVis x hx) with h | h
+          · exact .inl (List.mem_append_left _ h)
+          · exact .inr h
+        · intro p hp
+          simp only [List.mem_cons] at hp
+          rcases hp with rfl | hp
+          · refine ⟨hold m (List.mem_cons_self ..), ?_⟩
+            intro d hd
+            apply List.mem_append_right
+            simp only [docsOf, List.mem_map, List.mem_filter]
+            exact ⟨(m, d), ⟨hd, by simp⟩, rfl⟩
+          · have := g.curOK p hp
+            exact ⟨this.1, fun d hd => List.mem_append_left _ (this.2 d hd)⟩
+        · intro p hp m' hm'
+          simp only [List.mem_cons] at hp
+          rcases hp with rfl | hp
+          · exact hold m' (List.mem_cons_of_mem _ hm')
+          · exact g.snapOld p (List.mem_of_mem_erase hp) m' hm'
+  | flushDrop f =>
+    simp only [rstep]
+    split
+    · exact g
+    · next f' m hf =>
+      have hmem : (f', m) ∈ s.cur := List.mem_of_find?_eq_some hf
+      have hm := g.curOK _ hmem
+      refine ⟨g.pendMut, ?_, fun p hp => g.curOK p (List.mem_of_mem_erase hp), g.snapOld, g.noFail,
+        fun m' hm' => g.older m' (List.mem_of_mem_erase hm')⟩
+      intro x hx
+      rw [visibleDoc_iff]
+      rcases (visibleDoc_iff s x).1 (g.ackVis x hx) with h | ⟨p, hp1, hp2, h | h⟩
+      · exact .inl h
+      · exact .inr ⟨p, hp1, hp2, .inl h⟩
+      · by_cases hpm : p.1 = m
+        · left
+          apply hm.2 x
+          rw [← hpm, ← hp2]
+          exact hp1
+        · exact .inr ⟨p, hp1, hp2, .inr ((List.mem_erase_of_ne hpm).2 h)⟩
 
-theorem rgood_run : ∀ (acts : List RAct) (s : RSt), RGood s → noRotationDuringAdd s acts = true →
-    RGood (acts.foldl rstep s) := by
+theorem rgood_run (locked : Bool) : ∀ (acts : List RAct) (s : RSt), RGood s →
+    noRotationDuringAdd locked s acts = true → RGood (acts.foldl (rstep locked) s) := by
   intro acts
   induction acts with
   | nil => intro s g _; exact g
   | cons a as ih =>
     intro s g h
     simp only [noRotationDuringAdd, Bool.and_eq_true] at h
-    refine ih _ (rgood_step g a ?_) h.2
+    refine ih _ (rgood_step locked g a ?_) h.2
     have h1 := h.1
     cases a with
     | pick t d rot =>
@@ -182,8 +210,45 @@ theorem rgood_run : ∀ (acts : List RAct) (s : RSt), RGood s → noRotationDuri
     | rotate => simpa [List.isEmpty_iff] using h1
     | check _ => trivial
     | write _ => trivial
+    | flushSnap _ => trivial
     | flushWrite _ => trivial
     | flushDrop _ => trivial
 
+theorem rgood_init : RGood {} := ⟨by simp, by simp, by simp, by simp, rfl, by simp⟩
+
+/-- with the locked add no add is ever pending between regions -/
+theorem pending_nil_step {s : RSt} (hp : s.picked = []) (hc : s.checked = []) (a : RAct) :
+    (rstep true s a).picked = [] ∧ (rstep true s a).checked = [] := by
+  cases a with
+  | pick t d rot => cases rot <;> simp [rstep, rotateSt, hp, hc]
+  | check t => simp [rstep, hp, hc]
+  | write t => simp [rstep, hp, hc]
+  | rotate => simp [rstep, rotateSt, hp, hc]
+  | flushSnap f => simp only [rstep]; split <;> exact ⟨hp, hc⟩
+  | flushWrite f =>
+    simp only [rstep]
+    split
+    · exact ⟨hp, hc⟩
+    · split <;> exact ⟨hp, hc⟩
+  | flushDrop f => simp only [rstep]; split <;> exact ⟨hp, hc⟩
+
+theorem noRotationDuringAdd_locked : ∀ (acts : List RAct) (s : RSt), s.picked = [] → s.checked = [] →
+    noRotationDuringAdd true s acts = true := by
+  intro acts
+  induction acts with
+  | nil => intro _ _ _; rfl
+  | cons a as ih =>
+    intro s hp hc
+    simp only [noRotationDuringAdd, Bool.and_eq_true]
+    have := pending_nil_step hp hc a
+    refine ⟨?_, ih _ this.1 this.2⟩
+    cases a with
+    | pick t d rot => cases rot <;> simp [hp, hc]
+    | rotate => simp [hp, hc]
+    | check _ => rfl
+    | write _ => rfl
+    | flushSnap _ => rfl
+    | flushWrite _ => rfl
+    | flushDrop _ => rfl
 
 end Comet.Conc.Rot
